@@ -219,7 +219,10 @@ def handleC03Tree (name r c call : String) (out : List String) : String :=
     let far := if layered then (Ideal.layerRun Sc.float h lam h.ncols).map (·.2) else (Ideal.floodRun Sc.float h lam h.ncols).map (·.2)
     let sane := match far with
       | none => false
-      | some l => l.length == post.length && (l.zip post).all (fun p => (p.1 - p.2).abs ≤ 1e-6 * (1 + p.2.abs))
+      | some l =>
+        -- beyond |LLR| ~ 8 the Float evaluation of atanh near 1 loses digits (1 - tanh 15 = 2e-13): absolute 1e-2 there
+        let tol : Float := if lam.any (fun x => x.abs > 8) then 1e-2 else 1e-6
+        l.length == post.length && (l.zip post).all (fun p => (p.1 - p.2).abs ≤ tol * (1 + p.2.abs))
     let signsOK := syndromeOK h (lam.map (· ≤ 0))
     let run := if signsOK then some (Verdict.success (lam.map (fun (x : Float) => decide (x ≤ 0))) 0, minAbs 1e9 lam)
                else if layered then treeLayer h n n (Store.blank (0 : Float) h.rows) lam (minAbs 1e9 lam)
@@ -238,7 +241,10 @@ def handleC03Tree (name r c call : String) (out : List String) : String :=
 def handleC03 (inp out : List String) : String :=
   match inp with
   | ["tree", name, r, c, call] => handleC03Tree name r c call out
-  | [ar, sch, r, c, call] =>
+  | ar :: sch :: r :: c :: call0 :: more =>
+    -- earlier calls on the same decoder object (if any) come first; the LAST call is the traced one.  By C03 (refinement
+    -- from every incoming state) the reference is a function of (H, last call) only, so the warm-up calls are ignored here.
+    let call := (call0 :: more).getLast?.getD call0
     match parseSM r c, parseCall call with
     | some h, some (llrs, n) =>
       let s := if sch == "L" then Sched.layered else Sched.flooding
